@@ -21,22 +21,27 @@ from vf.runner import Collector
 
 PROPERTY = "C24"
 RULE = (
-    "Hypothesis draws programs of 1-5 unary statements over ONE leaf (rank 0-3, axis lengths 0-8, 7 dtypes, 5 chunking "
-    "families): basic getitem (ints, unit / non-unit / negative steps, newaxis, Ellipsis; weight 30), rechunk and "
-    "rechunk_auto (14), and neg/abs/add_s/mul_s, T/transpose/copy (13) in between, at least one getitem, 1-2 outputs "
-    "(shared reads). The leaf is da.from_array over a RecordingSource (a non-NumPy array-like logging every "
-    "__getitem__) with drawn storage grid (none / aligned with / finer than / coarser than / misaligned with the dask "
-    "chunks; exposed as .chunks, .shards or both; behind 0-2 adapter objects linked by .array/._array), lock (False, "
-    "True, threading.Lock), fancy, inline_array, asarray and getitem (default, a 4-argument user getter, a documented "
-    "2-argument user getter); 1 leaf in 10 is a plain small ndarray. Oracle: every output equals the NumPy twin "
-    "(shape, dtype, values); every request logged while the graph executes is a tuple of slices/ints with "
-    "0 <= start <= stop <= n, step None or >= 1, ints in [0, n); the elements requested cover the elements the output "
-    "needs (id-array twin); metamorphic: for an output y = v[b] whose whole chain has unit steps and no newaxis and whose result is not empty, the elements "
-    "requested when computing y are a subset of those requested when computing v alone. Thorough tier adds <= 1% cases "
-    "on a real 3000x3000 float64 ndarray (72 MB) sliced 1-2 times (optionally through a transpose / elemwise) so the "
-    "region stays above the 64 MiB eager-copy limit and the NumPy region path of FromArray._layer runs. Non-trivial: "
-    "a slice was pushed into a FromArray that already had a region (nested region) or a rechunk was pushed into a "
-    "read of a source with a storage grid; distinct = distinct case JSON."
+    "Programs (vf.gen.programs JSON, NumPy twin) of unary statements over ONE leaf whose leaf is da.from_array over a "
+    "RecordingSource: a non-NumPy array-like logging every __getitem__, with drawn storage grid (none / aligned with / "
+    "finer than / coarser than / misaligned with the dask chunks; exposed as .chunks, .shards or both; behind 0-2 adapter "
+    "objects linked by .array/._array), lock (False, True, threading.Lock), fancy, inline_array, asarray and getitem "
+    "(default, a 4-argument user getter, the documented 2-argument user getter); 1 leaf in 10 is a plain small ndarray. "
+    "Two generators, by shard: (1/3) program_strategy restricted to getitem (ints, unit / non-unit / negative steps, "
+    "newaxis, Ellipsis; weight 30), rechunk / rechunk_auto (14), neg/abs/add_s/mul_s and T/transpose/copy (13), 1-5 "
+    "statements, rank 0-3, axis lengths 0-8; (2/3) a chain generator in the same format, rank 1-3, axis lengths 0-12, "
+    "2-5 statements mostly applied to the newest variable, slices mostly unit-step with in-range / negative / "
+    "out-of-range bounds and ints, half of the programs starting from the template slice -> (rechunk | x.simplify() / "
+    "x.optimize() of the intermediate collection | elemwise / transpose) -> slice, so that a slice meets a FromArray "
+    "that already carries a region. 1-2 outputs (shared reads). Oracle: every output equals the NumPy twin (shape, "
+    "dtype, values); every request logged while the graph executes is a tuple of slices/ints with 0 <= start <= stop "
+    "<= n, step None or >= 1, ints in [0, n); the elements requested cover the elements the output needs (id-array "
+    "twin); metamorphic: for an output y = v[b] whose whole chain has unit steps and no newaxis and whose result is not "
+    "empty, the elements requested when computing y are a subset of those requested when computing v alone. Thorough "
+    "tier adds <= 1% cases on a real 3000x3000 float64 ndarray (72 MB) sliced 1-2 times (optionally through a "
+    "transpose / elemwise / rechunk) so the region stays above the 64 MiB eager-copy limit and the NumPy region path of "
+    "FromArray._layer runs. Non-trivial: a slice was pushed into a FromArray that already had a region (nested "
+    "region), or a rechunk was pushed into a read of a source with a storage grid, or the large NumPy region path ran; "
+    "distinct = distinct case JSON."
 )
 ASSUMPTIONS = [
     "NumPy indexing of the wrapped ndarray is the reference; the recorder delegates to it and only observes",
@@ -50,6 +55,10 @@ EXCLUDE = ("KF-layout-drift-over-shuffle", "KF-minmax-empty", "KF-pad-wide", "KF
 ELEMWISE = ("neg", "abs", "add_s", "mul_s")
 SHAPE = ("T", "transpose", "copy")
 ALLOWED = ("getitem", "rechunk", "rechunk_auto", "optimize_here") + ELEMWISE + SHAPE
+
+
+class OptimizeHereError(Exception):
+    """simplify()/optimize() of an intermediate collection raised."""
 
 
 @P.op("optimize_here", "c24-only")  # a family no other generator gives weight to
@@ -70,7 +79,12 @@ class _OptimizeHere:
     @staticmethod
     def da(s, a):
         assert s["how"] in ("simplify", "optimize")
-        return a[0].simplify() if s["how"] == "simplify" else a[0].optimize()
+        try:
+            return a[0].simplify() if s["how"] == "simplify" else a[0].optimize()
+        except NotImplementedError:
+            raise
+        except Exception as e:  # an optimiser failure is a finding, not an invalid program
+            raise OptimizeHereError(e) from e
 
 WEIGHTS = {"index": 30, "rechunk": 14, "elemwise": 6, "shape": 7}
 STORAGE_KINDS = ("none", "aligned", "finer", "coarser", "misaligned")
@@ -429,10 +443,15 @@ def check(case, vals=None):
     atol = util.float_tolerance(vals, [s["op"] for s in prog["stmts"]])
     # rejected at build?
     with S.phase("build"):
-        vars0, status = progrun.build_or_reject(prog, leaf_factory=lambda leaf, data: make_leaf(leaf, data, []))
-    if vars0 is None:
-        return status, [], []
-    del vars0
+        try:
+            P.build_da(prog, leaf_factory=lambda leaf, data: make_leaf(leaf, data, []))
+        except NotImplementedError:
+            return "rejected:NotImplementedError", [], []
+        except OptimizeHereError as e:
+            cause = e.__cause__
+            return "ok", [(util.exc_bucket("optimize-here", cause), util.exc_detail(cause))], sorted(labs)
+        except Exception as e:
+            return "rejected:" + util.exc_bucket("build", e), [], []
     refused = False
     for o in prog["outputs"]:
         got, reqs, recording = _run_output(prog, o)
@@ -680,7 +699,7 @@ def run_shard(spec, seed):
 
 
 def plan(tier):
-    specs = progrun.plan_cases(tier, 2400, 96000)
+    specs = progrun.plan_cases(tier, 4800, 192000)
     for i, sp in enumerate(specs):
         sp["gen"] = "program" if i % 3 == 0 else "chain"
     if tier == "thorough":
